@@ -184,6 +184,11 @@ func (g *vfGen) genC19() {
 			g.emit(vfOp("ziplayout", z))
 		}
 	}
+	// an archive without any entry (a standard writer emits just the end-of-central-directory record) and
+	// archives with a single unrelated entry: no marker, plain application/zip
+	emit(nil)
+	emit([]vfEntry{mk("readme.txt")})
+	emit([]vfEntry{{name: "a", body: []byte("x"), stored: true, nodesc: true}})
 	// directed: a short entry (26..44 bytes between the end of its header and the next signature,
 	// the lower bound of the statement) at position 2..5, directly followed by the only marker
 	exact := func(n int) []byte {
